@@ -13,7 +13,7 @@
 From Coq Require Import NArith List Bool Lia Arith ZifyBool ZifyN ZifyNat.
 Import ListNotations.
 Require Import SR.Base.Res SR.Model.Csv.
-Require SR.Model.Workbook.
+Require SR.Model.Workbook SR.Proofs.WorkbookP.
 Open Scope N_scope.
 
 Notation St := mk_reader.
@@ -959,3 +959,32 @@ Proof.
   apply andb_prop in H as [Hr HT]. rewrite forallb_app, all_write_row, IH by assumption. reflexivity.
 Qed.
 End Chars.
+
+(* ================================================================ the reader as the library opens the file *)
+(* Gen/CsvOpenParams.csv_newline_raw is read from CSVUnpacker.open on every run.  The two lemmas below need it to be
+   true (the file is opened with newline=''): with the text-mode open of the tree before commit aa3b8fc the parameter
+   is false, [change] fails and this file no longer compiles - a cell with a carriage return is then not read back
+   ([csv_cr_lost]). *)
+Lemma lib_reader_written d T : delim_ok d = true -> table_ok_raw T = true ->
+  lib_reader d (csv_write d T) = (T, None).
+Proof.
+  intros Hd HT. unfold lib_reader. change SR.Gen.CsvOpenParams.csv_newline_raw with true. cbn iota.
+  apply csv_reader_raw_written; assumption.
+Qed.
+
+Lemma lib_roundtrip d T : delim_ok d = true -> table_ok_raw T = true -> lib_read d (csv_write d T) = Ok T.
+Proof. intros Hd HT. unfold lib_read. rewrite lib_reader_written by assumption. reflexivity. Qed.
+
+(* a text without carriage return is cut into the same lines by both text layers *)
+Lemma raw_lines_no_cr : forall s cur, no_cr s = true -> raw_lines_from cur s = lines_from cur s.
+Proof.
+  induction s as [|c s IH]; intros cur H; [reflexivity|].
+  cbn [no_cr forallb] in H. apply andb_prop in H as [Hc Hs]. apply negb_true_iff in Hc.
+  cbn [raw_lines_from lines_from]. rewrite Hc. destruct (c =? LF); rewrite IH by exact Hs; reflexivity.
+Qed.
+
+Lemma raw_lines_text_lines s : no_cr s = true -> raw_lines s = Workbook.text_lines s.
+Proof.
+  intros H. rewrite <- text_lines_same. unfold raw_lines, text_lines.
+  rewrite SR.Proofs.WorkbookP.universal_newlines_id by exact H. apply raw_lines_no_cr. exact H.
+Qed.
